@@ -383,6 +383,8 @@ class E3(object):
 
     def prove(self, w, goal):
         facts = self.facts_of(w)
+        if any(not c[0] and c[1] < 0 for c in facts):
+            return True       # the path facts are contradictory: this world is unreachable
         neg = fm.negate(goal)
         atoms = set(fm.atoms_of(goal))
         # staged: axioms only, then facts at distance 1, 2, ... from the goal's atoms
@@ -852,7 +854,7 @@ class E3(object):
             return [(w, args[0])]
         if name == 'zip' and len(args) == 2 and args[0][0] == 'iterv' and args[1][0] == 'iterv':
             return [(w, ('iterv', args[0][1] + args[1][1]))]
-        if name == 'position' and args:
+        if name in ('position', 'rposition') and args:
             it = args[0]
             if it[0] == 'ref':
                 it = I.read(w, it[1])
@@ -1322,6 +1324,22 @@ def analyse(lib, res, cfg):
     rule.keymap = keymap
     n_ctx = 0
     analysed = set()
+    # Module-private, loop-free methods of the invariant-carrying types that are called by other methods of the same type
+    # are inlined into those callers (inline_ok) and their obligations judged there, with the caller's facts; analysing them
+    # alone as well would judge them for argument values no caller passes.  (A private helper that is never reached from an
+    # analysed caller stays `unvisited`, which is a violation.)
+    private_inlined = set()
+    by_np = {x.npath: x for x in lib.lib_fns()}
+    for g in lib.lib_fns():
+        for b in g.blocks:
+            t = b['term']
+            if t['k'] != 'call':
+                continue
+            cal = by_np.get(F.norm_path(t['func'].get('resolved') or t['func'].get('path') or ''))
+            if cal is None or cal.npath == g.npath or cal.vis != 'restricted' or cal.kind != 'AssocFn':
+                continue
+            if base.self_adt(cal) in STRUCTS and base.self_adt(cal) == base.self_adt(g) and not cfg_of(cal)['back']:
+                private_inlined.add(cal.npath)
     for passno, f in [(0, x) for x in lib.lib_fns()] + [(1, x) for x in lib.lib_fns()]:
         if skip_fn(f):
             continue
@@ -1340,6 +1358,8 @@ def analyse(lib, res, cfg):
             continue
         if sa in ('utf8::Utf8Accum',) or f.npath in VALUE_SET_FNS:
             continue          # value-set domain, see check_value_set
+        if f.npath in private_inlined:
+            continue          # judged in the context of each caller (see below)
         entries = [('', None, frozenset())]
         if is_method:
             entries = STRUCTS[sa][0](Interp([lib], rule))
@@ -1472,6 +1492,13 @@ def run_(ctx, res):
         check_helper_contracts(lib, res, cfg, rule.keymap)
         assumed = rule.assumed
         verdicts = {'discharged': 0, 'assumed': 0, 'delegated': 0}
+        from . import C07
+        try:
+            lemma = C07.slack_lemma(lib)
+        except KeyError as e:
+            lemma = (False, str(e), 'token::Tokens::new')
+        tok_fn = lemma[2]
+        res.extra['slack_lemma_%s' % cfg] = "%s: %s" % ('holds' if lemma[0] else 'FAILS', lemma[1][:300])
         for key in sorted(inv):
             s = sites.get(key)
             fnp = key.split('|')[0]
@@ -1486,6 +1513,11 @@ def run_(ctx, res):
                 verdict = 'undischarged'
             else:
                 verdict = 'discharged'
+            if verdict == 'undischarged' and (fnp == tok_fn or fnp.startswith(tok_fn + '::')) and lemma[0] \
+                    and key.split('|')[1] in ('bounds', 'overflow', 'range') and key.split('|')[2] in ('index', 'Add', 'get_unchecked', 'get_unchecked_mut'):
+                # the tokenizer's output cursor: discharged by the slack lemma proved on its extracted transducer (C07)
+                verdict = 'discharged'
+                res.extra.setdefault('by_slack_lemma_%s' % cfg, []).append(key)
             if verdict != 'discharged' and key in assumed and condition_holds(lib, assumed[key]):
                 verdicts['assumed'] += 1
                 res.assumed.append("%s — %s" % (key, assumed[key]['invariant']))
